@@ -36,6 +36,9 @@ type Case struct {
 	// DateMW: the provider is configured with `middlewares: [{type: header/date, ...}]` (docs/eng/providers.md,
 	// "HTTP Ammo middlewares": it sets the date header of the request just before execution)
 	DateMW *DateMW `json:"date_middleware,omitempty"`
+	// MaxAmmoSize: the provider option `maxammosize` ("Maximum number of byte in jsonline ammo. Default is
+	// bufio.MaxScanTokenSize"), 0 = not set. Only TestLongLines sets it.
+	MaxAmmoSize int `json:"maxammosize,omitempty"`
 }
 
 type DateMW struct {
@@ -169,6 +172,9 @@ func run(c Case, preload bool, take int) (outcome, error) {
 	}
 	if preload {
 		conf["preload"] = true
+	}
+	if c.MaxAmmoSize > 0 {
+		conf["maxammosize"] = c.MaxAmmoSize
 	}
 	if c.DateMW != nil {
 		mw := map[string]any{"type": "header/date"}
